@@ -89,6 +89,7 @@ type Monitor struct {
 	gstSeen, gstUndecided                                              bool
 	byzEverSent                                                        bool
 	ExtraRoundsMax                                                     int64
+	lastChangeEv, alarmsSinceChange                                    int
 	Checks                                                             map[string]int
 	RejectClasses                                                      map[string]int
 	DecideRounds                                                       map[uint64]int
@@ -230,7 +231,11 @@ func (m *Monitor) onAPIError(h *host, call string, err error) {
 	c := errClass(err)
 	switch c {
 	case "wrong-base", "wrong-supplement", "too-old":
-		return // documented late-binding rejections of (Byzantine) input
+		if call == "ReceiveMessage" {
+			return // documented late-binding rejections of (Byzantine) input
+		}
+		// a timer or a start request carries no input that could be rejected: an error here means
+		// the replay of queued messages was aborted (later queued messages are lost)
 	}
 	m.find("C07", fmt.Sprintf("C07(d) %s returned %s error", call, c), map[string]any{"error": trunc(err.Error(), 1500), "participant": h.i})
 }
@@ -242,7 +247,40 @@ func trunc(s string, n int) string {
 	return s
 }
 
+// checkStagnation is C06's livelock detector. After stabilisation every copy is delivered within
+// the synchrony bound and faulty members are silent, so the only sources of events are honest
+// participants. If none of them has changed its (instance, round, step) over thousands of events
+// and dozens of alarm firings while a started one is still undecided, the system is in a closed
+// loop of rebroadcasts that can never produce new information: that participant will not decide
+// within any number of rounds.
+func (m *Monitor) checkStagnation() {
+	w := m.w
+	if w.Sc.Class != "gst" || !m.gstSeen || w.stopped {
+		return
+	}
+	if w.Events-m.lastChangeEv < 4000 || m.alarmsSinceChange < 60 {
+		return
+	}
+	for _, h := range w.Part {
+		if h == nil || h.m.Kind != Honest {
+			continue
+		}
+		for inst := range h.started {
+			if _, ok := h.decided[inst]; ok {
+				continue
+			}
+			m.find("C06", "C06 no honest participant changed round or step over thousands of events after stabilisation while a started one is undecided (livelock)",
+				map[string]any{"participant": h.i, "instance": inst, "progress": fmt.Sprint(h.p.Progress().Instant), "events_without_change": w.Events - m.lastChangeEv, "alarms_without_change": m.alarmsSinceChange})
+			w.stop("c06-stagnant")
+			return
+		}
+	}
+}
+
 func (m *Monitor) onAlarm(h *host, err error) {
+	if h.m.Kind == Honest && !h.done {
+		m.alarmsSinceChange++
+	}
 	m.ps[h.i].callSeq++
 	m.log(rec{Kind: "ALARM", P: h.i, Verdict: errClass(err)})
 	m.onAPIError(h, "ReceiveAlarm", err)
@@ -263,6 +301,9 @@ func (m *Monitor) onProgress(h *host) {
 		if back {
 			m.find("C07", "C07(c) progress moved backwards", map[string]any{"from": fmt.Sprint(l), "to": fmt.Sprint(cur), "participant": h.i})
 		}
+	}
+	if !ps.hasLast || ps.last != cur {
+		m.lastChangeEv, m.alarmsSinceChange = m.w.Events, 0
 	}
 	ps.last, ps.hasLast = cur, true
 	m.Checks["c07c-progress"]++
